@@ -131,6 +131,7 @@ func verifVFSPut(name string, content []byte) {
 }
 func verifVFSDel(name string) { verifos.Remove(name) }
 func verifTask(name string, notification bool) {}
+func verifSched(explore bool)                     {}
 `
 
 type replayCase struct {
